@@ -1,9 +1,11 @@
 """Table of registered checks: property -> engine, modes, budgets, evidence texts."""
 
-REAL_TXN = ("real code: tikv.KVStore, txnkv/transaction, txnkv/txnsnapshot, txnkv/txnlock, internal/locate (region cache, "
+REAL_TXN = ("modes without suffix - real code: tikv.KVStore, txnkv/transaction, txnkv/txnsnapshot, txnkv/txnlock, internal/locate (region cache, "
             "request sender, replica selector), config/retry, oracle/oracles.pdOracle, internal/unionstore, internal/apicodec, "
             "internal/mockstore/mocktikv (RPC handlers + MVCCLevelDB + Cluster); stub: gRPC/batch client (SimTransport), PD (SimPD/TSO over "
-            "the repo's mock cluster), wall clock (testing/synctest fake clock)")
+            "the repo's mock cluster), wall clock (testing/synctest fake clock); modes ending in -R - the same client code, but the TiKV server is the "
+            "reference store sim/refkv (2PC, async commit, 1PC, CheckSecondaryLocks, Flush) behind the same simulated transport, with the region / "
+            "epoch / leader checks of mocktikv.Session over the shared mocktikv.Cluster")
 
 PROPS = {
     "C01": {
@@ -14,6 +16,8 @@ PROPS = {
         "modes": [
             {"mode": "workload", "quick": {"runs": 3000}, "thorough": {"runs": 120000}},
             {"mode": "nofault", "quick": {"runs": 1500}, "thorough": {"runs": 60000}},
+            {"mode": "workload-R", "quick": {"runs": 2000}, "thorough": {"runs": 100000}},
+            {"mode": "nofault-R", "quick": {"runs": 1000}, "thorough": {"runs": 50000}},
         ],
         "rule": ("each evaluation is one simulated run: 2-6 generated transaction programs (optimistic/pessimistic; get, batch-get, "
                  "iter, reverse iter, set, insert, delete, lock-keys, commit/rollback) on 1-3 KVStore clients over 1-3 stores and 1-4 regions, "
@@ -22,7 +26,7 @@ PROPS = {
                  "canonical RPC traces (hash of the sequence of request identities and fates)"),
         "real_vs_stub": REAL_TXN,
         "assumptions": [
-            "the repository's mocktikv is the TiKV server (2PC, optimistic and pessimistic); async commit / 1PC need the reference backend",
+            "modes without suffix: the repository's mocktikv is the TiKV server (2PC, optimistic and pessimistic); modes ending in -R: the reference backend sim/refkv (2PC, async commit, 1PC mixed within a run)",
             "ground truth is read from the store object directly (MvccGetByKey), never through the client under test",
             "seeded sampling of schedules and faults, not exhaustive",
         ],
@@ -35,6 +39,8 @@ PROPS = {
         "modes": [
             {"mode": "crash", "quick": {"runs": 35 * 60}, "thorough": {"runs": 35 * 3000}},
             {"mode": "crashfaults", "quick": {"runs": 35 * 40}, "thorough": {"runs": 35 * 3000}},
+            {"mode": "crash-R", "quick": {"runs": 1400}, "thorough": {"runs": 105000}},
+            {"mode": "crashfaults-R", "quick": {"runs": 700}, "thorough": {"runs": 70000}},
         ],
         "rule": ("run index = shape x position: for every generated small transaction shape (1-4 keys over 1-3 regions, put/delete/insert/"
                  "lock-only, optimistic/pessimistic, with sampled companions: seed writer, readers, conflicting writer, split) the committing "
@@ -43,7 +49,7 @@ PROPS = {
                  "non-trivial = the planned crash actually fired; distinct = distinct canonical RPC traces"),
         "real_vs_stub": REAL_TXN,
         "assumptions": ["client crash = permanent total partition of that client from TiKV and PD (DESIGN.md 2.4)",
-                        "backend M (mocktikv): 2PC only", "position space is enumerated completely per shape, shapes and companions are sampled"],
+                        "modes crash / crashfaults: backend M (mocktikv), 2PC only; modes *-R: reference backend, 2PC / async commit / 1PC", "position space is enumerated completely per shape, shapes and companions are sampled"],
     },
     "C03": {
         "engine": "txnsim",
@@ -52,13 +58,14 @@ PROPS = {
         "level": "fault_enumeration",
         "modes": [
             {"mode": "faults", "quick": {"runs": 200 * 12}, "thorough": {"runs": 200 * 600}},
+            {"mode": "faults-R", "quick": {"runs": 1600}, "thorough": {"runs": 100000}},
         ],
         "rule": ("run index = shape x fault placement: per shape every single fault from {drop request, drop response (immediate / time-out), "
                  "NotLeader, EpochNotMatch, ServerIsBusy, StaleCommand, region split, leader move, multi-second stall (lock outlives its ttl, "
                  "resolvers race the committer), duplicate} at every RPC position 0..11 of Commit, then 56 sampled double/triple placements; "
                  "non-trivial = a planned fault fired; distinct = distinct canonical RPC traces"),
         "real_vs_stub": REAL_TXN,
-        "assumptions": ["backend M (mocktikv): 2PC only", "single faults enumerated per shape; pairs sampled"],
+        "assumptions": ["mode faults: backend M (mocktikv), 2PC only; mode faults-R: reference backend, 2PC / async commit / 1PC", "single faults enumerated per shape; pairs, non-healing faults and context cancellation sampled"],
     },
     "C04": {
         "engine": "txnsim",
@@ -70,6 +77,9 @@ PROPS = {
             {"mode": "faults", "quick": {"runs": 1200}, "thorough": {"runs": 60000}},
             {"mode": "crash", "quick": {"runs": 700}, "thorough": {"runs": 35000}},
             {"mode": "leftover", "quick": {"runs": 800}, "thorough": {"runs": 30000}},
+            {"mode": "workload-R", "quick": {"runs": 1000}, "thorough": {"runs": 50000}},
+            {"mode": "faults-R", "quick": {"runs": 800}, "thorough": {"runs": 40000}},
+            {"mode": "crash-R", "quick": {"runs": 700}, "thorough": {"runs": 35000}},
         ],
         "rule": ("a passive monitor over the complete wire trace (every tikvrpc request/response crossing the tikv.Client seam), the TSO issuance log "
                  "and the API history of every run of the transactional workloads (mixed workload, fault enumeration, crash enumeration, contention); "
@@ -84,6 +94,7 @@ PROPS = {
         "level": "exploration",
         "modes": [
             {"mode": "reads", "quick": {"runs": 3000}, "thorough": {"runs": 120000}},
+            {"mode": "reads-R", "quick": {"runs": 1500}, "thorough": {"runs": 80000}},
         ],
         "rule": ("2-5 writer transactions on two clients (one or both crashed at a random RPC of a Commit: leftover pending / committed-primary / pessimistic locks), "
                  "splits, merges, leader moves and region errors; a third client performs 6-15 snapshot read groups (2-5 reads each on one snapshot object) over "
@@ -100,6 +111,7 @@ PROPS = {
         "modes": [
             {"mode": "ryw", "quick": {"runs": 3000}, "thorough": {"runs": 120000}},
             {"mode": "workload", "quick": {"runs": 1000}, "thorough": {"runs": 40000}},
+            {"mode": "ryw-R", "quick": {"runs": 1000}, "thorough": {"runs": 50000}},
         ],
         "rule": ("mode ryw: a preloading transaction, 1-2 transactions of 3-14 steps with savepoints, 0-2 concurrent committers, region errors / splits / merges / leader moves; "
                  "mode workload: the C01 mixed workload (reads of own writes); non-trivial = at least one transaction ended; distinct = canonical RPC traces"),
@@ -129,6 +141,7 @@ PROPS = {
         "level": "exploration",
         "modes": [
             {"mode": "gc", "quick": {"runs": 2400}, "thorough": {"runs": 100000}},
+            {"mode": "gc-R", "quick": {"runs": 1200}, "thorough": {"runs": 60000}},
         ],
         "rule": ("mode gc: mode reads' writers and crashes, extra region splits, a GC plan from the seed (range bounds incl. empty = unbounded, regions per task 1-3, concurrency 1-8, "
                  "scan limit 0 (KVStore.GC) / 1 / 2 / 3 / 8, optional injected handler failure, optional delete-range); non-trivial = at least one transaction ended; distinct = canonical RPC traces"),
@@ -172,6 +185,7 @@ PROPS = {
         "level": "exploration",
         "modes": [
             {"mode": "leftover", "quick": {"runs": 3000}, "thorough": {"runs": 120000}},
+            {"mode": "leftover-R", "quick": {"runs": 1500}, "thorough": {"runs": 80000}},
         ],
         "rule": ("2-5 contending transactions (70% pessimistic) with LockKeys option mixes (wait/no-wait/timeouts, return-values, check-existence), "
                  "commit/rollback; region errors, delays, splits, merges and leader moves injected, never a lost message; lock TTLs set to 10 simulated minutes so "
